@@ -209,8 +209,10 @@ def t_run_func(E):
                 E.oblige(Qn + '/ensures.skips_the_call_only_for_an_empty_set', st['inputs_empty'], props={'C03', 'C08'})
         else:
             E.oblige(Qn + '/signals.only_the_tasks_own_cancellation_propagates',
-                     z3.And(z3.BoolVal(outcome in ('cancelled', 'raise')), E.w['cancel_req']), props={'C07'},
-                     detail='origin %s' % exc.info.get('origin'))
+                     z3.And(z3.BoolVal(outcome in ('cancelled', 'raise')), E.w['cancel_req']), props={'C07', 'C03', 'C08'},
+                     detail='origin %s: anything else the wrapped function raises (a CancelledError of its own '
+                            'included) is a failed call: logged, inputs kept, retried; if it escapes, the background '
+                            'task dies and nothing is ever delivered again' % exc.info.get('origin'))
         if outcome == 'cancelled':
             E.oblige(Qn + '/signals.own_cancellation_is_never_swallowed', z3.BoolVal(kind == 'raise'), props={'C07'})
     E.run_paths(body)
@@ -714,7 +716,7 @@ def t_small(E):
         E.call(f, [o, it], {})
         kinds = [x[0] for x in log]
         E.oblige(f.qualname + '/ensures.clears_the_flag_then_schedules_exactly_one_thread_safe_put',
-                 z3.BoolVal(kinds == ['clear', 'call_soon_threadsafe']), props={'C03', 'C07'},
+                 z3.BoolVal(kinds == ['clear', 'call_soon_threadsafe']), props={'C03', 'C07', 'C08'},
                  detail='observed: %r' % kinds)
         if kinds == ['clear', 'call_soon_threadsafe']:
             cs = log[1]
